@@ -7,11 +7,12 @@ func runC01(c *Ctx) {
 	if c.Thorough() {
 		n = 12000
 	}
-	c.Sum.Rule = "random implementation-steered histories (browser/attacker/IdP simulator, virtual clock) of 8-40 requests x {memory, redis(miniredis)} x 4 filter configurations, " +
+	c.Sum.Rule = "random implementation-steered histories (browser/attacker/IdP simulator, virtual clock) of 8-40 requests x {memory, redis(miniredis)} x 5 filter configurations x 7 (absolute, idle) session timeouts of the store incl. none, " +
 		"with store faults (before/after effect, singly and in pairs, at random call indices), key-lookup failures and adversarial provider answers; " +
 		"distinct_nontrivial = distinct projected traces (verdict class, status, effect kinds and failures per request) of histories that reached a token exchange or a token write"
 	c.Sum.Rule += "; PLUS fault-point enumeration: 7 base scenarios (fresh, expired-refreshable under 5 provider behaviours, expired-no-refresh, callback under 3, logout, unknown cookie, pending) x " +
 		"a store fault before/after effect at each of the first 6 store calls (all pairs in thorough) and a key-lookup failure, each followed by two healthy requests with the same cookie"
-	runHistories(c, 1, histProfile{N: n, MinLen: 8, MaxLen: 40, FaultRate: 18, AttackRate: 15, Stores: []string{"memory", "redis"}}, nil)
+	runHistories(c, 1, histProfile{N: n, MinLen: 8, MaxLen: 40, FaultRate: 18, AttackRate: 15, Stores: []string{"memory", "redis"},
+		Timeouts: [][2]int{{0, 0}, {600, 0}, {0, 200}, {900, 300}, {3000, 0}, {0, 0}, {300, 120}}}, nil)
 	runFaultEnum(c, []string{"memory", "redis"})
 }
